@@ -7,13 +7,20 @@ sys.path.insert(0, os.path.dirname(os.path.abspath(__file__)))
 import cxx2v
 
 
+external = set()      # required units that live in another unit list and are already generated
+
+
 def closure(units, names):
     by = {u["name"]: u for u in units}
     out = []
 
     def add(n):
         if n not in by:
-            raise SystemExit("gen_all: unknown unit '%s'" % n)
+            # a unit of another unit list: acceptable as a requirement when it has already been generated
+            if os.path.exists(os.path.join(cxx2v.GEN, "Gen_%s.meta.json" % n)):
+                external.add(n)
+                return
+            raise SystemExit("gen_all: unknown unit '%s' (not in this unit list and coq/Gen/Gen_%s.meta.json does not exist)" % (n, n))
         for r in by[n].get("requires", []):
             add(r)
         if n not in out:
@@ -27,7 +34,7 @@ def main(argv):
     units = cxx2v.load_units()
     todo = closure(units, argv[1:] or [u["name"] for u in units])
     rc = 0
-    failed, done = set(), set()
+    failed, done = set(), set(external)
     import concurrent.futures
     with tempfile.TemporaryDirectory(prefix="cxx2v_") as wd:
         pending = list(todo)
